@@ -4,8 +4,15 @@ import subprocess
 from . import build, sexp
 
 
-def run_lines(cases, timeout=3600, env=None):
+def run_lines(cases, timeout=3600, env=None, shards=1):
     exe = build.ensure_vsbh()
+    if shards > 1 and len(cases) >= 4 * shards:
+        from concurrent.futures import ThreadPoolExecutor
+        n = (len(cases) + shards - 1) // shards
+        parts = [cases[i:i + n] for i in range(0, len(cases), n)]
+        with ThreadPoolExecutor(max_workers=shards) as ex:
+            outs = list(ex.map(lambda p: run_lines(p, timeout, env, 1), parts))
+        return [r for o in outs for r in o]
     text = "\n".join(sexp.dumps(c) for c in cases) + "\n"
     e = dict(build.ENV)
     e["RUST_BACKTRACE"] = "0"
